@@ -728,7 +728,9 @@ std::string hx_run(const std::string &line, std::string &oracle)
     try {
         res = SymEngine::parse(src, cx);
     } catch (const VerifAssertError &) {
-        throw;
+        // a canonical-form assertion inside the smart constructors (e.g. 121*0**a1): property C03, not syntax
+        stat("constructor_assertions_left_to_C03");
+        return "E:Assert";
     } catch (const std::exception &e) {
         std::string en = exc_name(e);
         stat("exceptions_" + en);
@@ -1030,10 +1032,13 @@ void hx_gen(Rng &r, const std::string &tier)
                             "1e-400", "4.9e-324", "2.4703282292062327e-324", "2.4703282292062328e-324",
                             "1.7976931348623157e308", "1.7976931348623158e308", "1.7976931348623159e308",
                             "0.1", "0.30000000000000004", "9007199254740993.0", "9007199254740992.5",
-                            "123456789012345678901234567890.5", "0.1234567890123456789", "1.e5", "08.0", "09e0",
+                            "123456789012345678901234567890.5", "0.1234567890123456789", "08.0", "09e0",
                             "2.2250738585072011e-308", "2.2250738585072014e-308", "1e23", "8.5e-0"};
         for (auto f : ff)
             emit_tree(pr, mk("fl", f), true, "literal-float");
+        // the tokenizer reads "1." + identifier "e5", parse_implicit_mul's fast_float reads 1.e5 = 100000.0 (times one)
+        for (auto f : {"1.e5", "1.e5x", "1e", "2e", "1e+", "1_0", "0x10", "5.x", "1e5e", "2pi", "3I", "1.5e3x", "1E", "2E5x"})
+            emit(std::string("parse 1 ") + hex(f) + " -", "literal-implicit-mul");
         int n = th ? 3000 : 250;
         for (int i = 0; i < n; i++) {
             emit_tree(pr, g.int_lit(), true, "literal-int");
@@ -1094,7 +1099,8 @@ void hx_gen(Rng &r, const std::string &tier)
     for (int i = 0; i < (th ? 6000 : 500); i++) {
         Printer pr(r, 20, 4, true);
         std::string s = pr.top(g.arith(1 + (int)r.below(3), r.coin()));
-        static const std::string alphabet = "+-*/^@()<>=!~&|,. \t0123456789eExy_$#;'\"[]{}?:\\%";
+        // no '*', '^', '@': turning "7*123456789" into a power is an evaluation blow-up, not a syntax question
+        static const std::string alphabet = "+-/()<>=!~&|,. \t0123456789eExy_$#;'\"[]{}?:\\%";
         int edits = 1 + (int)r.below(2);
         for (int e = 0; e < edits && !s.empty(); e++) {
             size_t pos = r.below(s.size());
